@@ -38,6 +38,37 @@ theorem urlSafe_href {url : Bytes} (h : urlSafe url = true) :
 theorem urlSafe_href' {url : Bytes} (h : urlSafe url = true) :
     List.flatMap APart.spell (urlVal {} url) = refUrl url := urlSafe_href h
 
+/-! ### Footnote names and numbers pass `escape_href` unchanged -/
+
+theorem hrefByte_alnum : ∀ b : UInt8, (isAsciiAlnum b || b == 0x2D) = true → hrefByte b = [b] :=
+  forall_uint8_of_fin (by decide +kernel)
+
+theorem escapeHref_id (s : Bytes) (h : ∀ b ∈ s, (isAsciiAlnum b || b == 0x2D) = true) : escapeHref s = s := by
+  induction s with
+  | nil => rfl
+  | cons b r ih =>
+    simp only [escapeHref, List.flatMap_cons] at ih ⊢
+    rw [hrefByte_alnum b (h b (by simp)), ih (fun c hc => h c (by simp [hc]))]
+    rfl
+
+theorem digit_alnum : ∀ b : UInt8, isAsciiDigit b = true → (isAsciiAlnum b || b == 0x2D) = true :=
+  forall_uint8_of_fin (by decide +kernel)
+
+theorem escapeHref_dec (n : Nat) : escapeHref (ofNatDec n) = ofNatDec n :=
+  escapeHref_id _ (fun b hb => digit_alnum b (ofNatDec_digits n b hb))
+
+theorem escapeHref_name (s : Bytes) (h : s.all isAsciiAlnum = true) : escapeHref s = s :=
+  escapeHref_id _ (fun b hb => by simp [List.all_eq_true.mp h b hb])
+
+theorem escapeHref_append (a b : Bytes) : escapeHref (a ++ b) = escapeHref a ++ escapeHref b := by
+  simp [escapeHref, List.flatMap_append]
+
+theorem escapeHref_suffix (n : Nat) : escapeHref (fnSuffix n) = fnSuffix n := by
+  unfold fnSuffix
+  split
+  · rw [escapeHref_append, escapeHref_dec]; rfl
+  · rfl
+
 /-! ### Plain text of a description -/
 
 mutual
@@ -52,6 +83,7 @@ theorem plainT_toTree : ∀ i : Inl, plainT i.toTree = i.plain
   | .autolink s r => by simp [Inl.toTree, leaf, plainT, plainF, Inl.plain]
   | .hard _ => by simp [Inl.toTree, leaf, plainT, plainF, Inl.plain]
   | .soft => by simp [Inl.toTree, leaf, plainT, plainF, Inl.plain]
+  | .fnref .. => by simp [Inl.toTree, leaf, plainT, plainF, Inl.plain]
 theorem plainF_toForest : ∀ is : Inls, plainF is.toForest = is.plain
   | .nil => by simp [Inls.toForest, plainF, Inls.plain]
   | .cons i r => by simp [Inls.toForest, plainF, Inls.plain, plainT_toTree i, plainF_toForest r]
@@ -121,6 +153,24 @@ theorem enter_image (url title : Bytes) (h : urlSafe url = true) :
     simp [spell, Tok.spell, spellAttrs, Attr.spell, urlSafe_href' h, spellVal, APart.spell, refEsc_eq, refTitle,
       S.t_img, S.a_src, S.a_alt, S.a_title, S.v_voidend, H.img_src, H.alt_attr, H.img_end, H.title_attr]
 
+theorem enter_fnref (name : Bytes) (rn ix : Nat) (h : name.all isAsciiAlnum = true) :
+    R (enter {} {} cx (.footnoteReference name rn ix) sp cs) lf
+      (H.fnref_open ++ name ++ H.fnref_id ++ name ++ fnSuffix rn ++ H.fnref_mid ++ ofNatDec ix ++ H.fnref_close) := by
+  have e : enter {} {} cx (.footnoteReference name rn ix) sp cs =
+      W.emit [.op S.t_sup [litAttr S.a_class S.v_footnote_ref],
+        .op S.t_a [⟨S.a_href, some [.lit S.v_hfn, .href name]⟩, ⟨S.a_id, some [.href (S.v_fnref ++ name ++ fnSuffix rn)]⟩,
+          ⟨S.a_data_footnote_ref, none⟩],
+        .lit (ofNatDec ix), .cl S.t_a, .cl S.t_sup] := by
+    simp [enter, spAttr, fnSuffix, H.dash]
+  rw [e]
+  refine R_congr (R_emit _ lf) ?_
+  have h1 : escapeHref (S.v_fnref ++ name ++ fnSuffix rn) = S.v_fnref ++ name ++ fnSuffix rn := by
+    rw [escapeHref_append, escapeHref_append, escapeHref_name name h, escapeHref_suffix]; rfl
+  simp only [spell, List.flatMap_cons, List.flatMap_nil, Tok.spell, spellAttrs, Attr.spell, litAttr, spellVal, APart.spell,
+    h1, escapeHref_name name h, List.append_nil]
+  simp [S.t_sup, S.t_a, S.a_class, S.v_footnote_ref, S.a_href, S.v_hfn, S.a_id, S.v_fnref, S.a_data_footnote_ref,
+    H.fnref_open, H.fnref_id, H.fnref_mid, H.fnref_close]
+
 end pieces
 
 /-! ### Inline trees -/
@@ -143,6 +193,9 @@ theorem inl_hard (b : Bool) : InlGoal (.hard b) := fun cx lf =>
 
 theorem inl_soft : InlGoal .soft := fun cx lf =>
   R_leaf (enter_soft cx {} .nil lf) rfl
+
+theorem inl_fnref (name : Bytes) (rn ix : Nat) (h : name.all isAsciiAlnum = true) : InlGoal (.fnref name rn ix) := fun cx lf =>
+  R_leaf (enter_fnref cx {} .nil lf name rn ix h) rfl
 
 theorem inl_emph (us : Bool) (cs : Inls) (ih : InlsGoal cs) : InlGoal (.emph us cs) := fun cx lf =>
   R_node rfl (enter_emph cx {} _ lf) (ih _ _ _ _ _) (exit_emph cx _ _)
@@ -201,6 +254,7 @@ theorem inl_goal : ∀ i : Inl, i.safe = true → InlGoal i
   | .autolink s r, h => inl_autolink s r (by simpa [Inl.safe] using h)
   | .hard b, _ => inl_hard b
   | .soft, _ => inl_soft
+  | .fnref name rn ix, h => inl_fnref name rn ix (by simpa [Inl.safe] using h)
 theorem inls_goal : ∀ is : Inls, is.safe = true → InlsGoal is
   | .nil, _ => inls_nil
   | .cons i r, h => by
